@@ -73,7 +73,118 @@ def configs(tier):
                                         pass
                                     out.append(dict(mode=mode, guard=guard, sd=sd, times=list(times),
                                                     durs=list(durs), fail=fail, stop=st))
+    # event data shapes: no data at all, falsy items only, arguments picked by f_args / f_kwargs
+    for mode in ('cancel', 'wait', 'start', 'c', 'w', 's'):
+        for shape in SHAPES:
+            for times in ((0, 4, 8), (0, 0, 0), (0, 1, 1)):
+                for sd in (0, 1):
+                    out.append(dict(kind='shape', mode=mode, shape=shape, times=times, sd=sd))
     return out
+
+
+# shape -> (f_args, f_kwargs, event data of put #i, sent directly to the block (no 'source' item))
+SHAPES = {
+    'empty': ((), (), lambda i: {}),
+    'falsy': (('value',), (), lambda i: {'value': 0}),
+    'none': (('value',), (), lambda i: {'value': None}),
+    'kw': ((), ('x',), lambda i: {'x': i, 'unused': ''}),
+    'both': (('a', 'b'), ('c',), lambda i: {'a': i, 'b': (), 'c': False}),
+}
+
+
+def run_shape(cfg, acc):
+    """Every put - whatever its data looks like - gets exactly one result carrying that data."""
+    mode, times, sd = cfg['mode'], cfg['times'], cfg['sd']
+    f_args, f_kwargs, mk = SHAPES[cfg['shape']]
+    viol = []
+    for ch, obs in explore(lambda c: _shape_exec(cfg, c), max_execs=50):
+        acc.execs += 1
+        acc.outcome((mode, cfg['shape'], times, sd, repr(obs['calls']), repr(obs['results'])))
+        tag = f"mode {mode!r}, f_args={f_args}, f_kwargs={f_kwargs}, puts {[mk(i) for i in range(3)]} at {times}"
+        if obs['errors']:
+            viol.append(('shape-error', f"{tag}: {obs['errors']}"))
+            continue
+        res = obs['results']
+        for i in range(3):
+            mine = [r for r in res if r[1] == mk(i)]
+            exp_n = sum(1 for j in range(3) if mk(j) == mk(i))
+            if len(mine) != exp_n:
+                viol.append(('not-exactly-one-result', f"{tag}: put {mk(i)} has {len(mine)} result(s) "
+                             f"(expected {exp_n}): {res}"))
+                break
+        nsucc = sum(1 for r in res if r[0] == 'success' and r[1] != STOPD)
+        if mode[0] in 'ws' and nsucc != 3:
+            viol.append(('run-missing', f"{tag}: {nsucc} successful runs, expected 3: {res}"))
+        if mode[0] == 'c' and not any(r[0] == 'success' and r[1] == mk(obs['sent'][-1]) for r in res):
+            viol.append(('latest-event-did-not-complete', f"{tag}: {res}"))
+        exp_calls = [(tuple(mk(i)[k] for k in f_args), {k: mk(i)[k] for k in f_kwargs}) for i in obs['sent']]
+        ran = [c for c in obs['calls'] if c != STOPCALL]
+        if cfg['shape'] == 'empty' and sd:
+            ran = ran[:-1]      # the stop_data run takes no arguments either
+        if mode[0] in 'ws' and ran != exp_calls:
+            viol.append(('wrong-arguments', f"{tag}: coroutine called with {ran}, expected {exp_calls}"))
+        if any(c not in exp_calls for c in ran):
+            viol.append(('wrong-arguments', f"{tag}: coroutine called with {ran}"))
+        if sd:
+            stops = [r for r in res if r[1] == STOPD]
+            last_call_ok = cfg['shape'] == 'empty' or obs['calls'][-1:] == [STOPCALL]
+            if len(stops) != 1 or res[-1][1] != STOPD or not last_call_ok:
+                viol.append(('stop-data-not-last', f"{tag}: results {res}, calls {obs['calls']}"))
+        if obs['out_end'] != 0:
+            viol.append(('output-not-zero-at-end', f"{tag}: output {obs['out_end']}"))
+    return viol
+
+
+STOPD = {'a': 'STOP', 'b': 'STOP', 'c': 'STOP', 'x': 'STOP', 'value': 'STOP'}
+STOPCALL = 'stop-call'
+
+
+def _shape_exec(cfg, chooser):
+    mode, times, sd = cfg['mode'], cfg['times'], cfg['sd']
+    f_args, f_kwargs, mk = SHAPES[cfg['shape']]
+    obs = {'errors': [], 'calls': [], 'results': [], 'sent': []}
+    elog = []
+    with Sim(chooser) as sim:
+        loop = sim.loop
+
+        async def coro(*args, **kwargs):
+            if 'STOP' in args or 'STOP' in kwargs.values():
+                obs['calls'].append(STOPCALL)
+            else:
+                obs['calls'].append((args, kwargs))
+            await asyncio.sleep(1)
+            return 'ok'
+        probe = Probe('probe', log=elog)
+        kw = {'stop_data': dict(STOPD)} if sd else {}
+        blk = edzed.OutputAsync(
+            'out', coro=coro, mode=mode, stop_timeout=1000, f_args=f_args, f_kwargs=f_kwargs,
+            on_success=edzed.Event(probe, 'success'), on_error=edzed.Event(probe, 'error'),
+            on_cancel=edzed.Event(probe, 'cancel'), **kw)
+
+        async def driver():
+            task = asyncio.create_task(sim.circuit.run_forever())
+            await sim.circuit.wait_init()
+            def put(i):
+                obs['sent'].append(i)
+                blk.event('put', **mk(i))
+            futs = [loop.call_at_us(t * TICK, put, i) for i, t in enumerate(times)]
+            del futs
+            await loop.sleep_until_us(20 * TICK)
+            if not sim.circuit.is_ready():
+                obs['errors'].append(('simulation-stopped', repr(sim.circuit.error)))
+            err = await stop(sim.circuit)
+            if err is not None and not isinstance(err, asyncio.CancelledError):
+                obs['errors'].append(('simulation-error', repr(err)))
+            obs['out_end'] = blk.output
+            del task
+        try:
+            sim.run(driver())
+        except Exception as err:    # pylint: disable=broad-except
+            obs['errors'].append(('driver-died', repr(err)))
+        if loop.exc_log:
+            obs['errors'].append(('loop-exception', [c.get('message') for c in loop.exc_log]))
+    obs['results'] = [(e, d.get('put')) for (_t, _n, e, d) in elog]
+    return obs
 
 
 def one_exec(cfg, chooser):
@@ -325,6 +436,10 @@ def obs_stop_time(cfg):
 
 def run_config(cfg):
     acc = Acc()
+    if cfg.get('kind') == 'shape':
+        for sig, msg in run_shape(cfg, acc)[:3]:
+            acc.violation(f"C12:{sig}:{cfg['mode']}", msg, cfg=cfg)
+        return acc
     ex = explore(lambda ch: one_exec(cfg, ch), max_execs=400)
     key = (cfg['mode'], cfg['guard'], cfg['sd'])
     for ch, obs in ex:
